@@ -140,10 +140,13 @@ func runC18(c *Ctx) {
 		late := true
 		n := 0
 		eachInstr(upgrade, func(in ssa.Instruction) {
-			isMut := isCallTo(in, hdrDel, hdrAdd)
-			if _, ok := in.(*ssa.MapUpdate); ok {
-				isMut = true
-			}
+			isMut := doesDeep(in, func(x ssa.Instruction) bool {
+				if isCallTo(x, hdrDel, hdrAdd) {
+					return true
+				}
+				_, ok := x.(*ssa.MapUpdate)
+				return ok
+			})
 			if !isMut {
 				return
 			}
@@ -421,7 +424,40 @@ func runC18(c *Ctx) {
 			n++
 			good := false
 			why := "the leftover offset is not derived from the position of the blank line in the received bytes"
+			// the candidate values of the offset: the phi leaves, or - when an unexported helper computes it from the
+			// handshake buffer - the leaves of what the helper returns, with its parameter standing for the buffer
+			type cand struct {
+				v   ssa.Value
+				buf func(ssa.Value) bool
+			}
+			var cands []cand
+			isBuf := func(v ssa.Value) bool { return loadOfField(v, hsBuf) }
 			for _, leaf := range phiLeaves(sl.Low) {
+				if hc, ok := stripConv(leaf).(*ssa.Call); ok && isHelperOf(upgrade, hc.Call.StaticCallee()) {
+					h := hc.Call.StaticCallee()
+					prmIsBuf := func(v ssa.Value) bool {
+						q, ok := stripConv(v).(*ssa.Parameter)
+						if !ok {
+							return false
+						}
+						for i, hp := range h.Params {
+							if hp == q && i < len(hc.Call.Args) && loadOfField(hc.Call.Args[i], hsBuf) {
+								return true
+							}
+						}
+						return false
+					}
+					for _, hr := range returnsOf(h) {
+						for _, l2 := range phiLeaves(hr.Results[0]) {
+							cands = append(cands, cand{l2, prmIsBuf})
+						}
+					}
+					continue
+				}
+				cands = append(cands, cand{leaf, isBuf})
+			}
+			for _, cd := range cands {
+				leaf := cd.v
 				bo, ok := stripConv(leaf).(*ssa.BinOp)
 				if !ok || bo.Op != token.ADD {
 					continue
@@ -431,7 +467,7 @@ func runC18(c *Ctx) {
 					continue
 				}
 				sep, okSep := constString(ic.Call.Args[1])
-				if !loadOfField(ic.Call.Args[0], hsBuf) || !okSep || sep != "\r\n\r\n" {
+				if !cd.buf(ic.Call.Args[0]) || !okSep || sep != "\r\n\r\n" {
 					continue
 				}
 				if isConstInt(bo.Y, 4) {
